@@ -434,7 +434,15 @@ class World(object):
                 xw, yw = fmt(end[0] - f["x"]), fmt(end[1] - f["y"])
             # zero centre-offset words are left out, as CAM post-processors do (a missing I/J word means 0)
             ij = " ".join(w for w in ("I" + fmt(i) if i else "", "J" + fmt(j) if j else "") if w)
-            return "%s X%s Y%s %s" % ("G2" if cw else "G3", xw, yw, ij), dict(x=Fr(end[0]), y=Fr(end[1]))
+            extra, upd = "", dict(x=Fr(end[0]), y=Fr(end[1]))
+            if len(ev) > 2 and "E" in ev[2]:          # printing arc
+                extra += " " + self._eword(f["e"] + self.estep())
+                upd["e"] = f["e"] + self.estep()
+            if len(ev) > 2 and "Z" in ev[2]:          # helical arc: ends one unit higher (or back at 1)
+                z = Fr(2) if f["z"] != 2 else Fr(1)
+                extra += " " + self._word("Z", z)
+                upd["z"] = z
+            return "%s X%s Y%s %s%s" % ("G2" if cw else "G3", xw, yw, ij, extra), upd
         if k == "REL":
             return "G91", dict(abs=False)
         if k == "ABS":
@@ -498,18 +506,21 @@ class World(object):
                 continue
             if k == "FWRECOVER" and not f["fw"]:
                 continue
+            if k == "ARC" and len(ev) > 2 and "E" in ev[2] and (f["depth"] != 0 or f["fw"] or f["e"] >= emax):
+                continue
             if k == "ARC":
                 start = ARCS[ev[1]][0]
                 if (not f["abs"] and not self.cfg.get("relarcs")) or f["inch"] or \
                         self.pt(start) != (f["x"], f["y"]):
                     continue
-            if k == "REL" and not f["abs"]:
+            rep = self.cfg.get("repeat_modes")       # G90 after G90 etc. are legal no-ops
+            if k == "REL" and not f["abs"] and not rep:
                 continue
-            if k == "ABS" and f["abs"]:
+            if k == "ABS" and f["abs"] and not rep:
                 continue
-            if k == "INCH" and f["inch"]:
+            if k == "INCH" and f["inch"] and not rep:
                 continue
-            if k == "MM" and not f["inch"]:
+            if k == "MM" and not f["inch"] and not rep:
                 continue
             if k == "G92XYZ" and (self.episode or f["shifted"]):
                 continue
